@@ -50,7 +50,9 @@ MetaEdits == {"op_desc_added", "op_desc_changed", "param_desc_added", "param_des
               "schema_desc_added", "schema_desc_changed", "tag_added", "tag_replaced", "ext_added", "ext_changed",
               "default_added", "default_changed", "example_added", "example_changed", "produces_added",
               "scheme_added", "host_changed", "basepath_changed", "definition_added", "resp_added_with_schema",
-              "header_type_changed", "param_type_and_default"}
+              "header_type_changed", "param_type_and_default",
+              \* a list that is wholly absent on one side
+              "tags_from_none", "schemes_from_none", "consumes_from_none"}
 MetaCases == {Desc("meta", "-", "-", e, s) : e \in MetaEdits, s \in BOOLEAN}
 
 CaseSpace == {c \in LeafCases : LeafCaseOK(c)} \cup Leaf2Cases \cup StructCases \cup MetaCases
@@ -90,6 +92,9 @@ MetaPair(e) ==
                                      [MetaBase EXCEPT !.responses.r200.schema.properties = PropsDesc("second text")]>>
     [] e = "tag_added"         -> <<Put(MetaBase, "tags", <<"t1">>), Put(MetaBase, "tags", <<"t1", "t2">>)>>
     [] e = "tag_replaced"      -> <<Put(MetaBase, "tags", <<"t1">>), Put(MetaBase, "tags", <<"t2">>)>>
+    [] e = "tags_from_none"    -> <<MetaBase, Put(MetaBase, "tags", <<"t1", "t2">>)>>
+    [] e = "schemes_from_none" -> <<MetaBase, Put(MetaBase, "schemes", <<"http", "https">>)>>
+    [] e = "consumes_from_none"-> <<[MetaBase EXCEPT !.consumes = <<>>], [MetaBase EXCEPT !.consumes = <<"application/json", "application/xml">>]>>
     [] e = "ext_added"         -> <<MetaBase, Put(MetaBase, "ext", [xa |-> "1"])>>
     [] e = "ext_changed"       -> <<Put(MetaBase, "ext", [xa |-> "1"]), Put(MetaBase, "ext", [xa |-> "2"])>>
     [] e = "default_added"     -> <<MetaBase, WithParam([default |-> Str("a")])>>
@@ -123,7 +128,7 @@ Pair(c) ==
     [] c.kind \in {"added_required", "added_optional"} ->
          \* candidate requests are those an old client sends: without the new element
          LET req == (c.kind = "added_required") IN
-         IF c.loc \in ParamLocs
+         IF c.loc \in ParamLocs \cup PathLevelLocs
            THEN [A |-> [Embed(c.loc, leaf, req, "csv") EXCEPT !.params = <<>>],
                  B |-> Embed(c.loc, leaf, req, "csv"), reqs |-> {ReqWithout(c.loc)}]
            ELSE [A |-> Put(BaseAOS, "body", ObjQ), B |-> Put(BaseAOS, "body", ObjQP(leaf, req)),
